@@ -1,6 +1,6 @@
 (* C10/Spec.v — the property statements' vocabulary, and their proofs from the
    invariants (Inv, Closers, Transmit, InLock, Progress). *)
-From XV Require Import lib.Bytes lib.Lts gen.SessClose C10.Model C10.Inv C10.Proofs C10.Closers
+From XV Require Import lib.Bytes lib.Lts gen.SessClose gen.Serve C10.Model C10.Inv C10.Proofs C10.Closers
   C10.Transmit C10.InLock C10.StateLock C10.Progress C10.Refute C10.Tables.
 
 Definition reachable_from (ds : bool) (ks : list kind) (s : state) : Prop :=
@@ -129,10 +129,11 @@ Lemma source_tables :
    sc_setclosedeadline_cancels_previous = true /\ sc_setclosedeadline_zero_is_no_deadline = true) /\
   (sc_send_records_opening_element = true /\ sc_negotiator_records_ws = true /\
    sc_reader_ws_close_is_eof = true) /\
-  sc_statelock_blocking_calls = [].
+  sc_statelock_blocking_calls = [] /\
+  (sv_serve_eof_identity = true /\ sc_serve_reads_context_every_turn = true).
 Proof.
   split; [exact tbl_out_lockers|]. split.
   - destruct tbl_guards as (_ & A & B & C & D & E). destruct tbl_reader_and_deadline as [F _]. tauto.
   - split; [exact tbl_setters|]. split; [exact tbl_serve_defer|]. split; [exact (conj (proj2 tbl_reader_and_deadline) tbl_setdeadline)|].
-    destruct tbl_close_tags as (_ & _ & A). destruct tbl_ws_framing as [B C]. split; [tauto|exact tbl_statelock].
+    destruct tbl_close_tags as (_ & _ & A). destruct tbl_ws_framing as [B C]. split; [tauto|]. split; [exact tbl_statelock|exact tbl_serve_loop].
 Qed.
